@@ -113,13 +113,16 @@ pub fn resolve_path(m: &TreeModel, keys: &[Vec<u8>], root: usize, path: &[u8]) -
 }
 
 /// Is this tree operation applicable to the current model state (valid commit)?
-pub fn applicable(ex: &Exec, col: u8, op: &TxOp, touched: &HashSet<usize>) -> bool {
+/// `touched`: keys inserted, referenced by address or removed earlier in this transaction;
+/// `delta`: net change of the root count by earlier ReferenceTree / DereferenceTree of this
+/// transaction.
+pub fn applicable(ex: &Exec, col: u8, op: &TxOp, touched: &HashSet<usize>, delta: &HashMap<usize, i64>) -> bool {
 	let (append_only, rc_roots, _) = kind_flags(ex, col);
 	let ColModel::Tree(m) = &ex.cur[col as usize] else { return false };
 	let keys = &ex.col_cfgs[col as usize].keys;
 	match op {
 		TxOp::InsertTree(k, spec) => {
-			if touched.contains(k) || m.roots.contains_key(&keys[*k]) {
+			if touched.contains(k) || delta.contains_key(k) || m.roots.contains_key(&keys[*k]) {
 				return false
 			}
 			// Re-inserting under a key whose (dereferenced) tree is still held by a reader is
@@ -127,24 +130,65 @@ pub fn applicable(ex: &Exec, col: u8, op: &TxOp, touched: &HashSet<usize>) -> bo
 			if ex.tree_rt.get(col as usize).map_or(false, |r| r.locks.contains_key(k)) {
 				return false
 			}
-			fn ok(m: &TreeModel, keys: &[Vec<u8>], s: &TreeSpec, touched: &HashSet<usize>, rt: &TreeRt) -> bool {
+			fn ok(m: &TreeModel, keys: &[Vec<u8>], s: &TreeSpec, touched: &HashSet<usize>, delta: &HashMap<usize, i64>, rt: &TreeRt) -> bool {
 				if s.children.len() > 255 {
 					return false
 				}
 				s.children.iter().all(|c| match c {
-					ChildSpec::New(n) => ok(m, keys, n, touched, rt),
+					ChildSpec::New(n) => ok(m, keys, n, touched, delta, rt),
 					ChildSpec::Existing { root, path } =>
 						!touched.contains(root) &&
+							!delta.contains_key(root) &&
 							!path.is_empty() && resolve_path(m, keys, *root, path).map_or(false, |id| rt.addr.contains_key(&id)),
 				})
 			}
 			let empty = TreeRt::default();
 			let r = ex.tree_rt.get(col as usize).unwrap_or(&empty);
-			ok(m, keys, spec, touched, r)
+			ok(m, keys, spec, touched, delta, r)
 		},
 		TxOp::RefTree(k) => !touched.contains(k) && (append_only || (rc_roots && m.roots.contains_key(&keys[*k]))),
 		TxOp::DerefTree(k) => !touched.contains(k) && !append_only && m.roots.contains_key(&keys[*k]),
 		_ => false,
+	}
+}
+
+/// Bookkeeping of `applicable` after an operation was accepted into the transaction.
+pub fn note_accepted(ex: &Exec, col: u8, op: &TxOp, touched: &mut HashSet<usize>, delta: &mut HashMap<usize, i64>) {
+	let (append_only, rc_roots, _) = kind_flags(ex, col);
+	let ColModel::Tree(m) = &ex.cur[col as usize] else { return };
+	let keys = &ex.col_cfgs[col as usize].keys;
+	match op {
+		TxOp::InsertTree(k, spec) => {
+			touched.insert(*k);
+			// trees referenced by address must not be dereferenced later in the same transaction
+			fn refs(s: &TreeSpec, out: &mut HashSet<usize>) {
+				for c in &s.children {
+					match c {
+						ChildSpec::New(n) => refs(n, out),
+						ChildSpec::Existing { root, .. } => {
+							out.insert(*root);
+						},
+					}
+				}
+			}
+			refs(spec, touched);
+		},
+		TxOp::RefTree(k) =>
+			if rc_roots && !append_only {
+				*delta.entry(*k).or_insert(0) += 1;
+			} else {
+				touched.insert(*k);
+			},
+		TxOp::DerefTree(k) => {
+			let d = delta.entry(*k).or_insert(0);
+			*d -= 1;
+			let cnt = m.roots.get(&keys[*k]).map_or(0, |r| r.1 as i64);
+			if !rc_roots || cnt + *d <= 0 {
+				// the tree is gone: nothing else may name it in this transaction
+				touched.insert(*k);
+			}
+		},
+		_ => {},
 	}
 }
 
